@@ -61,6 +61,7 @@ class Gen:
         self.pending = []	# names whose ill-typed definition was rejected: define them properly later
         self.pending_dom = []
         self.newtypes = ["Float", "DoubleFloat"] if dialect != "libaldor" else []	# types nothing has mentioned yet
+        self.deepfun = None
         self.uses_lib = False	# the session reads the prebuilt library lx.ao
         self.macros = []	# names defined by a top-level macro
         self.bumps = {}		# name -> (variable, increment)
@@ -565,6 +566,31 @@ class Gen:
         m = "@@%d:" % self.mark
         return self.add(Form("out", '%s << "%s" << %s %s + 10 * %s %s << newline;' % (self.d.out, m, h, dn, h, SI), marker=m, value=m + "1"))
 
+    def g_deep(self):
+        """steps whose evaluation recurses hundreds of interpreted frames deep (the interpreter chains
+        further stacks to its head stack), with `#int gc' between them"""
+        SI = self.d.SI
+        r = self.rng
+        if not self.deepfun:
+            dn, ln = self.fresh("dp"), self.fresh("ml")
+            self.deepfun = (dn, ln)
+            self.add(Form("fun-deep", "%s(n: %s): %s == if n < 1 then 0 else 1 + %s(n - 1);" % (dn, SI, SI, dn)))
+            self.add(Form("fun-deep", "%s(n: %s): List %s == if n < 1 then %s else cons(n, %s(n - 1));" % (ln, SI, SI, "empty" if self.d.name == "libaldor" else "nil", ln)))
+        dn, ln = self.deepfun
+        for _ in range(r.range(1, 3)):
+            k = r.range(250, 1100)
+            self.mark += 1
+            m = "@@%d:" % self.mark
+            if r.chance(1, 2):
+                self.add(Form("out", '%s << "%s" << %s(%d + z0) << newline;' % (self.d.out, m, dn, k), marker=m, value=m + str(k)))
+            else:
+                self.add(Form("out", '%s << "%s" << #(%s(%d + z0)) << newline;' % (self.d.out, m, ln, k), marker=m, value=m + str(k)))
+            if r.chance(2, 3):
+                self.add(Form("ctl:gc", "#int gc", good=None))
+                if r.chance(1, 3):
+                    self.add(Form("ctl:gc", "#int gc", good=None))
+        return self.g_out()
+
     def g_heavy(self):
         """allocation-heavy steps: a long list built by a comprehension, consumed by a later step
         (forced collections and `#int gc' fall between and inside them)"""
@@ -846,7 +872,7 @@ class Gen:
                                 ("macro", 4), ("ifblock", 5), ("include", 3 if len(self.files) < 3 else 0),
                                 ("out_split", 6), ("fun_split", 4), ("bump", 4), ("exprstep", 6), ("out_bump", 5 if self.bumps else 0),
                                 ("record", 5), ("array", 5), ("closure", 3), ("gener", 4), ("cond", 3),
-                                ("localmacro", 3), ("where", 3), ("macro2", 3), ("library", 2), ("heavy", 4), ("curried", 5), ("tuple", 5), ("longline", 2), ("bool", 3), ("while", 3), ("catdom", 2)])
+                                ("localmacro", 3), ("where", 3), ("macro2", 3), ("library", 2), ("heavy", 4), ("curried", 5), ("tuple", 5), ("longline", 2), ("bool", 3), ("while", 3), ("catdom", 2), ("deep", 3)])
                 getattr(self, "g_" + k)()
         # every session ends with an output so the last state is observed
         self.g_out()
